@@ -123,11 +123,18 @@ func cmdVC(args []string) {
 			jobs = append(jobs, job{vc, o})
 		}
 		SolveAll(jobs, dir, *timeout, 12)
+		nVac := 0
+		defer func() {
+			if nVac > 0 {
+				fmt.Printf("  !! %d unreachable cover(s): check for vacuity\n", nVac)
+			}
+		}()
 		for _, o := range vc.obls {
 			mark := "  "
 			switch {
 			case o.Expect == "sat" && o.Result == "unsat":
 				mark = "VACUOUS"
+				nVac++
 			case o.Expect == "sat":
 				mark = "cover"
 			case o.Result != "unsat":
